@@ -23,7 +23,7 @@
 struct S_class_tbb__detail__d1__queuing_mutex M;
 typedef struct S_class_tbb__detail__d1__queuing_mutex__scoped_lock node_t;
 #define WORD() vp_qm_word(&M)
-#define FRESH() vp_qm_fresh(&M)
+#define FRESH() vp_qm_fresh(&M, &NODE[3])
 #define QUEUING 1
 #define EXCL 1
 #elif LOCK == 3
@@ -31,7 +31,7 @@ typedef struct S_class_tbb__detail__d1__queuing_mutex__scoped_lock node_t;
 struct S_class_tbb__detail__d1__spin_rw_mutex M;
 typedef struct S_class_tbb__detail__d1__rw_scoped_lock node_t;
 #define WORD() vp_rw_word(&M)
-#define FRESH() vp_rw_fresh(&M)
+#define FRESH() vp_rw_fresh(&M, &NODE[3])
 #define QUEUING 0
 #define EXCL 0
 #else
@@ -39,17 +39,17 @@ typedef struct S_class_tbb__detail__d1__rw_scoped_lock node_t;
 struct S_class_tbb__detail__d1__queuing_rw_mutex M;
 typedef struct S_class_tbb__detail__d1__queuing_rw_mutex__scoped_lock node_t;
 #define WORD() vp_qrw_word(&M)
-#define FRESH() vp_qrw_fresh(&M)
+#define FRESH() vp_qrw_fresh(&M, &NODE[3])
 #define QUEUING 1
 #define EXCL 0
 #endif
-node_t NODE[3];
+node_t NODE[4];     /* one object per thread + NODE[3]: the fresh object of the final check */
 #if LOCK == 4
 /* pointer<->integer identity hooks, see h_rw.c */
 int i2p_miss;
 u64 vp_p2i(u8* p) { return (u64)p; }
 u8* vp_i2p(u64 x) {
-  for (int i = 0; i < NT; i++) {
+  for (int i = 0; i < 4; i++) {
     if (x == (u64)&NODE[i]) return (u8*)&NODE[i];
     if (x == (u64)&NODE[i] + 1) return (u8*)&NODE[i] + 1;
   }
@@ -167,8 +167,10 @@ int main(void) {
   }
   for (int t = 0; t < NT; t++) check_idle(t, 0);
   VP_ASSERT(WORD() == 0, "lock word not free after all holders released (dangling queue tail / stale state)");
-  VP_ASSERT(FRESH(), "a fresh scoped_lock cannot acquire the lock after everybody released");
-  VP_ASSERT(WORD() == 0, "lock word not free after the fresh cycle");
+  if (WORD() == 0) {   /* otherwise already reported above; the fresh cycle could then spin (unwinding bound => inconclusive instead of the violation) */
+    VP_ASSERT(FRESH(), "a fresh scoped_lock cannot acquire the lock after everybody released");
+    VP_ASSERT(WORD() == 0, "lock word not free after the fresh cycle");
+  }
   VP_REACHED();
   return 0;
 }
